@@ -365,7 +365,7 @@ func (t *tr) block(b *ssa.BasicBlock, heaps map[string]string) {
 			ln, cp := t.v(x.Len), t.v(x.Cap)
 			t.oblige("safe", t.nameAt("makeslice", x.Pos(), pickCall), R, fmt.Sprintf("(and (<= 0 %s) (<= %s %s) (<= %s 72057594037927936))", ln, ln, cp, cp), x.Pos())
 			el := x.Type().Underlying().(*types.Slice).Elem()
-			tag := t.eng.tag(x.Type())
+			tag := t.eng.sliceTag(x.Type())
 			for _, ls := range uniq(leaves(el)) {
 				hh := t.H(heaps, "H_"+ls)
 				t.assume(R, fmt.Sprintf("(forall ((j Int)) (! (= (select (select (select %s %d) %s) j) %s) :pattern ((select (select (select %s %d) %s) j))))", hh, tag, r, zeroOf(ls), hh, tag, r))
@@ -993,7 +993,7 @@ func (t *tr) convert(x *ssa.Convert, R string, heaps map[string]string) {
 		r := t.newRef(R)
 		t.allocs = append(t.allocs, allocInfo{r, x})
 		s := t.v(x.X)
-		tag := t.eng.tag(dst)
+		tag := t.eng.sliceTag(dst)
 		hh := t.H(heaps, "H_int")
 		t.assume(R, fmt.Sprintf("(forall ((j Int)) (! (=> (and (<= 0 j) (< j (slen_s %s))) (= (select (select (select %s %d) %s) j) (sat %s j))) :pattern ((select (select (select %s %d) %s) j))))", s, hh, tag, r, s, hh, tag, r))
 		t.assume(R, fmt.Sprintf("(= (seqof (select (select %s %d) %s) 0 (slen_s %s)) (seq_of_str %s))", hh, tag, r, s, s))
